@@ -11,7 +11,7 @@ from .mir import fmt
 LEN_FNS = ("core::slice::<impl [T]>::len", "alloc::vec::Vec::<T, A>::len", "core::str::<impl str>::len")
 EMPTY_FNS = ("core::slice::<impl [T]>::is_empty", "alloc::vec::Vec::<T, A>::is_empty")
 TRANSPARENT_CALLS = ("core::ops::Deref::deref", "<alloc::vec::Vec<T, A> as core::ops::Deref>::deref", "core::convert::AsRef::as_ref", "<[T] as core::convert::AsRef<[T]>>::as_ref",
-                     "core::array::<impl core::ops::Index<I> for [T; N]>::index", "core::slice::<impl [T]>::as_ref")
+                     "core::slice::<impl [T]>::as_ref", "<alloc::vec::Vec<T, A> as core::ops::DerefMut>::deref_mut")
 
 
 def canon(e, fn=None):
@@ -42,7 +42,20 @@ def canon(e, fn=None):
     if k == "call":
         if e[1] in LEN_FNS:
             return "len(%s)" % canon(e[2][0], fn)
-        if e[1] in TRANSPARENT_CALLS:
+        if ("ops::Index" in e[1]) and (e[1].endswith("::index") or e[1].endswith("::index_mut")) and len(e[2]) == 2:
+            rng = e[2][1]
+            if rng[0] == "agg":
+                kind = str(rng[1])
+                b = canon(e[2][0], fn)
+                if "RangeFull" in kind:
+                    return b
+                if "RangeFrom" in kind:
+                    return "%s[%s..]" % (b, canon(rng[2][0], fn))
+                if "RangeTo" in kind:
+                    return "%s[..%s]" % (b, canon(rng[2][0], fn))
+                if "core::ops::Range" in kind and len(rng[2]) == 2:
+                    return "%s[%s..%s]" % (b, canon(rng[2][0], fn), canon(rng[2][1], fn))
+        if e[1] in TRANSPARENT_CALLS or e[1].endswith("Result::<T, E>::unwrap") or "TryFrom<" in e[1] and e[1].endswith("::try_from") or e[1] == "core::convert::TryFrom::try_from":
             return canon(e[2][0], fn)
         return "%s(%s)" % (e[1], ",".join(canon(a, fn) for a in e[2]))
     if k == "bin":
@@ -71,7 +84,12 @@ def canon(e, fn=None):
     if k == "cindex":
         return "%s[%d]" % (canon(e[1], fn), e[2])
     if k == "kconst":
+        v = repr(e[3])
+        if e[3] is not None and len(v) <= 120:
+            return "K%s" % v.replace(" ", "")
         return "K:%s" % (e[1],)
+    if k == "downcast":
+        return "%s?%s" % (canon(e[1], fn), e[3])
     return fmt(e)
 
 
@@ -261,3 +279,22 @@ def A(rel, bound, **coeffs):
 
 def atom(rel, bound, coeffs):
     return A(rel, bound, **coeffs)
+
+
+def short(e, fn=None):
+    """canon() with call paths shortened to their last path segment(s) — for wiring rules that
+    compare whole dataflow expressions such as `to_bytes(scalarmult_base(nonce))`."""
+    s = canon(e, fn)
+    import re as _re
+    def sh(m):
+        p = m.group(0)
+        if p.startswith("arg") or p.startswith("v:") or p.startswith("len(") or p.startswith("lin{") or p.startswith("mod("):
+            return p
+        parts = [x for x in _re.split(r"::", p) if x]
+        # keep Type::method for inherent methods, method for free functions
+        tail = parts[-1]
+        if len(parts) >= 2 and _re.match(r"^[A-Z]", parts[-2].lstrip("<")):
+            return parts[-2].lstrip("<").split("<")[0] + "::" + tail
+        return tail
+    # shorten every path-like token that precedes '('
+    return _re.sub(r"[A-Za-z_<][A-Za-z0-9_:<>&;, \[\]']*?(?=\()", lambda m: sh(m) if "::" in m.group(0) else m.group(0), s)
